@@ -205,19 +205,27 @@ fn matches_extra(b: &Log, g: &Game) -> bool {
 '''
 
 ENTRY_T = r'''
-fn entry_@ID@(port: Option<u16>, sel: u8, wrong: bool) {
+fn ded_@ID@(port: Option<u16>, sel: u8, wrong: bool) {
+    let g: &'static Game = crate::games::GAMES.get("@ID@").unwrap();
+    reset();
+    unsafe { EXP = Exp { idx: @IDX@, game: Some(g), port, sel: 0, cut_after: @CUT@, selftest_wrong_port: wrong }; }
+    // the dedicated module
+    let r = @DEDICATED@;
+    core::mem::forget(r);
+    // every path through a recorder is checked and cut there; arriving here means the layer below was not reached
+    assert!(false, "@ID@: the dedicated function returned without reaching the protocol function / transport");
+}
+fn gen_@ID@(port: Option<u16>, sel: u8, wrong: bool) {
     let g: &'static Game = crate::games::GAMES.get("@ID@").unwrap();
     reset();
     unsafe { EXP = Exp { idx: @IDX@, game: Some(g), port, sel, cut_after: @CUT@, selftest_wrong_port: wrong }; }
-    // 0: the dedicated module; 1..3: the generic entry point without / with timeout settings / with a sample of extra settings
+    // the generic entry point: 1 without settings, 2 with timeout settings, 3 with a sample of extra settings
     match sel {
-        0 => { let r = @DEDICATED@; core::mem::forget(r); }
         1 => { let r = crate::games::query::query_with_timeout_and_extra_settings(g, &ip(), port, None, None); core::mem::forget(r); }
         2 => { let r = crate::games::query::query_with_timeout_and_extra_settings(g, &ip(), port, Some(TimeoutSettings::default()), None); core::mem::forget(r); }
         _ => { let r = crate::games::query::query_with_timeout_and_extra_settings(g, &ip(), port, None, Some(sample_extra())); core::mem::forget(r); }
     }
-    // every path through a recorder is checked and cut there; arriving here means the layer below was not reached
-    assert!(false, "@ID@: the call path returned without reaching the protocol function / transport");
+    assert!(false, "@ID@: the generic entry point returned without reaching the protocol function / transport");
 }
 '''
 GROUP_T = r'''
@@ -227,7 +235,7 @@ GROUP_T = r'''
 fn @NAME@() {
     let port: Option<u16> = kani::any();
     let sel: u8 = kani::any();
-    kani::assume(sel < 4);
+    kani::assume(sel >= 1 && sel <= @NSEL@);
     let which: usize = kani::any();
     match which {
 @ARMS@
@@ -237,7 +245,12 @@ fn @NAME@() {
 '''
 
 SELFTEST = ('csgo', 'savage2')
-GROUP = int(os.environ.get('VERIF_C14_GROUP', '12'))
+# Every tier: the dedicated function of EVERY table entry (cheap: 24 per harness).
+# quick tier   : the generic entry point (the expensive part: one big match) for ONE representative entry per distinct protocol
+#                shape of the table (family, version, with / without its own request settings), without settings;
+# thorough tier: the generic entry point for EVERY entry, without settings / with timeout settings / with a sample of extra settings.
+TIERS = {'quick': (1, 11), 'thorough': (3, 8)}
+DED_GROUP = 24
 
 # dedicated entry points of the hand-written modules, keyed by the ProprietaryProtocol variant text of the table row
 PROPRIETARY = {
@@ -284,7 +297,8 @@ def table_rows(repo):
     return rows
 
 
-def generate(repo, out_path):
+def generate(repo, out_path, tier='quick'):
+    NSEL, GROUP = TIERS.get(tier, TIERS['quick'])
     rows = table_rows(repo)
     mods = {}
     for rel in ('valve', 'gamespy', 'quake', 'unreal2'):
@@ -297,6 +311,7 @@ def generate(repo, out_path):
     out = [header]
     harnesses = []
     entries = []
+    shapes = {}
     not_compared = []
     used = set()
     hand_written = {'battalion1944': 'crate::games::battalion1944::query(&ip(), port)'}
@@ -323,6 +338,9 @@ def generate(repo, out_path):
             continue
         idx = len(entries)
         entries.append((tid, dedicated))
+        body = re.sub(r'\s+', '', text)
+        args = rp.split_top(body[1:-1])
+        shapes[tid] = (re.sub(r'\d[\d_]*', 'N', args[2]) if len(args) > 2 else '?', len(args) > 3)
         out.append(ENTRY_T.replace('@ID@', tid).replace('@IDX@', str(idx)).replace('@CUT@', '1').replace('@DEDICATED@', dedicated))
     # report(): one named assertion per table entry and aspect, so that a refutation names the game
     rep = ['\nfn report(idx: usize, ok_port: bool, ok_timeout: bool, ok_params: bool) {\n    match idx {\n']
@@ -332,27 +350,43 @@ def generate(repo, out_path):
                    f'assert!(ok_params, "{tid}: protocol parameters are those of the definition (or the extra settings given)"); }}\n')
     rep.append('        _ => {}\n    }\n}\n')
     out.append(''.join(rep))
-    def group(name, members, wrong, sp):
-        arms = ''.join(f'        {k} => entry_{tid}(port, sel, {wrong}),\n' for k, (tid, _) in enumerate(members))
-        return GROUP_T.replace('@STUBS@', STUBS).replace('@NAME@', name).replace('@ARMS@', arms.rstrip('\n')).replace('@SHOULD_PANIC@', sp)
-    for g0 in range(0, len(entries), GROUP):
-        members = entries[g0:g0 + GROUP]
-        name = f'defs_group_{g0 // GROUP:02d}'
-        out.append(group(name, members, 'false', ''))
-        harnesses.append((name, 'dedicated function and generic query vs the definition, table entries: ' + ', '.join(t for t, _ in members)))
+    def group(name, members, kind, wrong, sp):
+        arms = ''.join(f'        {k} => {kind}_{tid}(port, sel, {wrong}),\n' for k, (tid, _) in enumerate(members))
+        return GROUP_T.replace('@STUBS@', STUBS).replace('@NAME@', name).replace('@ARMS@', arms.rstrip('\n')).replace('@SHOULD_PANIC@', sp).replace('@NSEL@', str(NSEL))
+    for g0 in range(0, len(entries), DED_GROUP):
+        members = entries[g0:g0 + DED_GROUP]
+        name = f'defs_dedicated_{g0 // DED_GROUP:02d}'
+        out.append(group(name, members, 'ded', 'false', ''))
+        harnesses.append((name, 'dedicated function vs the definition, table entries: ' + ', '.join(t for t, _ in members)))
+    if tier == 'thorough':
+        generic_entries = entries
+    else:
+        # one representative per protocol shape: the text of the row's protocol argument with numbers masked, plus whether the row
+        # carries its own request settings
+        seen, generic_entries = set(), []
+        for (tid, dedicated) in entries:
+            shape = shapes[tid]
+            if shape not in seen:
+                seen.add(shape)
+                generic_entries.append((tid, dedicated))
+    for g0 in range(0, len(generic_entries), GROUP):
+        members = generic_entries[g0:g0 + GROUP]
+        name = f'defs_generic_{g0 // GROUP:02d}'
+        out.append(group(name, members, 'gen', 'false', ''))
+        harnesses.append((name, 'generic entry point vs the definition, table entries: ' + ', '.join(t for t, _ in members)))
     # vacuity guard: the same harness shape with a deliberately wrong expected default port MUST be refuted
     for tid in SELFTEST:
         m = [e for e in entries if e[0] == tid]
         if m:
-            out.append(group(f'defs_selftest_{tid}', m, 'true', '#[kani::should_panic]\n'))
+            out.append(group(f'defs_selftest_{tid}', m, 'ded', 'true', '#[kani::should_panic]\n'))
             harnesses.append((f'defs_selftest_{tid}', f'vacuity guard: the harness of "{tid}" with a wrong expected default port is refuted'))
     orphans = [m for m in mods if m not in used]
     with open(out_path, 'w') as f:
         f.write(''.join(out))
-    return harnesses, {'table_entries': len(rows), 'entries_compared': len(entries), 'entries_per_harness': GROUP, 'entries_not_compared': not_compared,
+    return harnesses, {'table_entries': len(rows), 'entries_with_dedicated_function_checked': len(entries), 'entries_with_generic_entry_point_checked': [t for t, _ in generic_entries], 'generic_call_paths_per_entry': NSEL, 'tier': tier, 'entries_not_compared': not_compared,
                        'modules_without_table_entry': orphans}
 
 
 if __name__ == '__main__':
-    h, info = generate(sys.argv[1] if len(sys.argv) > 1 else '/repo', '/var/tmp/verif_defs.rs')
+    h, info = generate(sys.argv[1] if len(sys.argv) > 1 else '/repo', '/var/tmp/verif_defs.rs', sys.argv[2] if len(sys.argv) > 2 else 'quick')
     print(len(h), info)
